@@ -88,12 +88,21 @@ def predicate(g, ops, rng):
         return 'copy() is not deeply equal'
     # class conversions
     if kind == 'TS':
-        p = CausalGraph.from_dict(jt(g.to_dict()))
+        # a graph that holds a directed cycle (reachable only with validate=False) is refused by every validating constructor: that
+        # refusal is C02's clause and is checked there; the conversion clause is evaluated without validation on such a graph
+        from .c02 import acyclic
+        cyclic = not acyclic(g.get_node_names(), [e.get_edge_pair() for e in g.get_edges() if str(e.get_edge_type()) == '->'])
+        p = CausalGraph.from_dict(jt(g.to_dict()), validate=not cyclic)
         if [n.identifier for n in p.get_nodes()] != g.get_node_names() or [str(n.variable_type) for n in p.get_nodes()] != [str(n.variable_type) for n in g.get_nodes()]:
             return 'TS -> plain conversion loses identifiers / variable types'
         if [(e.get_edge_pair(), str(e.get_edge_type()), e.meta) for e in p.get_edges()] != [(e.get_edge_pair(), str(e.get_edge_type()), e.meta) for e in g.get_edges()]:
             return 'TS -> plain conversion loses edges'
-        back = TimeSeriesCausalGraph.from_causal_graph(p)
+        try:
+            back = TimeSeriesCausalGraph.from_causal_graph(p)
+        except Exception as e:  # noqa: BLE001
+            if cyclic and type(e).__name__ == 'CyclicConnectionError':
+                return None
+            raise
         if not (back.__eq__(g, True) and g.__eq__(back, True)):
             return 'TS -> plain -> TS is not deeply equal'
     else:
@@ -105,9 +114,15 @@ def predicate(g, ops, rng):
             except ValueError:
                 ok = False
         against = [e for e in g.get_edges() if ok and str(e.get_edge_type()) == '->' and lag[e.source.identifier] > lag[e.destination.identifier]]
+        from .c02 import acyclic
+        cyclic = not acyclic(g.get_node_names(), [e.get_edge_pair() for e in g.get_edges() if str(e.get_edge_type()) == '->'])
         try:
             t = TimeSeriesCausalGraph.from_causal_graph(g)
-        except ValueError:
+        except Exception as e:  # noqa: BLE001
+            if cyclic and type(e).__name__ == 'CyclicConnectionError':
+                return None                    # a directed cycle (validate=False) is refused by the validating conversion: C02's clause
+            if not isinstance(e, ValueError):
+                raise
             if ok and not against:
                 return 'from_causal_graph refused a graph whose names parse and whose directed edges respect time'
             return None
